@@ -3,12 +3,90 @@
 manifest stays valid while checks are added)."""
 import json, subprocess, sys
 
+T_ASSUME = "Trusted base: the harness's own oracles under /verif/harness/src (hand-written reference lexer, Earley recogniser over the transcribed grammar, reference validator, position / traversal models), derived from the property statements and the pinned grammar, never from the implementation's answers. "
+EXPL = " Exploration is the level claimed: the quantifier is infinite (or astronomically large), so nothing is proved; the evidence file states how many cases were generated, how many were non-trivial and shows samples."
+
 CHECKS = {
-    # id: (technique, level text, level note, design ref)
     "C01": ("proptest-seeded structured random generation (7 input families, 1-6 files) + deterministic choice-sequence shrinking; oracle: no panic, key set == id set, id tags",
-            "Generated-input search: tens of thousands (quick) to millions (thorough) of documents, soups, mutants and targeted injections per run, each executed against the real add_content/validate with panics caught. Exploration is the right level: totality over all UTF-8 strings cannot be enumerated, and the two historical crashes needed exactly the conjunctions these generators construct.",
-            "Trusted: the harness's panic capture and the reference lexer/grammar used only for classifying cases. Hangs are detected only by a 60 s per-case watchdog (exit 2, inconclusive).",
+            "Tens of thousands (quick) to millions (thorough) of documents, soups, token mutants, targeted multi-byte / Unicode-whitespace injections, deep and long inputs per run, each executed against the real add_content / validate with panics caught; the two historical crashes needed exactly the conjunctions these generators construct." + EXPL,
+            T_ASSUME + "Hangs are detected only by a 60 s per-case watchdog (exit 2, inconclusive); a stack overflow would kill the checker and is reported as a crashed check.",
             "DESIGN.md section 4, C01"),
+    "C02": ("generated document models x 2-4 random layouts; oracle: expected tree built from the model (round-trip model -> text -> tree) + metamorphic equality across layouts",
+            "Every run renders thousands of models (all item kinds, member forms, types to depth 4, all value / annotation forms, near-keyword names) under independent layouts and compares the returned tree field by field with a tree built from the model alone." + EXPL,
+            T_ASSUME + "Only constructs the model can express; duplicate annotation keys are not generated.",
+            "DESIGN.md section 4, C02"),
+    "C03": ("bounded-exhaustive token-sequence substitution into 10 syntactic slots + exhaustive keyword/reserved-word name slots + random token mutation; differential oracle: reference lexer + Earley recogniser verdict vs parse-stage result",
+            "All token-kind sequences up to length 2 (thorough 3) in ten slots, all ~58 keywords / reserved words and near-keywords in 14 identifier positions, plus tens of thousands of random mutants: the reference verdict must equal 'clean parse', errors must survive validation, the first error must sit on the first non-viable token, and no keyword may be stored as a name." + EXPL,
+            T_ASSUME + "Overflowing transact codes and unknown numeric characters are excluded from the verdict comparison (counted).",
+            "DESIGN.md section 4, C03"),
+    "C04": ("generated documents with a token table: exact expected range of every node from the renderer, offset->(line, grapheme column) oracle, structural nesting checks; reference token table for syntax diagnostics on mutated inputs",
+            "Every range of every returned tree (about a million per quick run) is compared with the range computed from the generator's token table under multi-byte, CRLF and Unicode-whitespace layouts; every position anywhere is checked against the line/column oracle; malformed inputs must report token-exact syntax ranges." + EXPL,
+            T_ASSUME + "unicode-segmentation is trusted for grapheme clusters (cross-checked by a char count on simple lines). Lone-CR layouts are excluded from exact comparison.",
+            "DESIGN.md section 4, C04"),
+    "C05": ("generated multi-file projects over an adversarial name space; differential oracle: reference resolver (AIDL scoping rules from the statement) vs Type.kind of every node + 'unknown type' Errors",
+            "Thousands of projects per run with near-miss names, partial qualification, built-in imports and references nested to depth 4; the kind of every type node and the exact multiset of 'unknown type' errors are compared with a reference resolver written from the statement." + EXPL,
+            T_ASSUME + "Don't-care corners are discarded and counted (see evidence.coverage.discards).",
+            "DESIGN.md section 4, C05"),
+    "C06": ("generated projects with rich import / forward-declaration lists; reference classifier computes the exact expected diagnostic multiset on every statement",
+            "Every import and forward declaration of every generated file is classified by the reference (duplicate / unresolved / unused / conflict / repeated / used) and the multiset of diagnostics sitting on those statements (kind, range, related ranges) must match exactly." + EXPL,
+            T_ASSUME + "Don't-care corners are discarded and counted.",
+            "DESIGN.md section 4, C06"),
+    "C07": ("exhaustive enumeration of 17 type categories x 4 directions x method/interface oneway x 24 argument positions through real multi-file resolution, plus random projects; reference table from the statement",
+            "The finite product named in the property is enumerated completely on every run (6528 projects), each category produced through real cross-file resolution; random projects add arbitrary contexts. Errors on direction keywords / type starts are compared as multisets." + EXPL,
+            T_ASSUME + "`void` as argument type is asserted as 'only in / none' (grounded in the code's table; the statement does not list it).",
+            "DESIGN.md section 4, C07"),
+    "C08": ("exhaustive enumeration of container shapes (depth <= 2 quick, depth <= 3 thorough) over 16 leaf categories in 4 positions + random projects; reference element tables from the statement",
+            "All 304 shapes with one container level in all four positions on every quick run (plus a 9000-shape sample of the next level; thorough: all 93040 two-level shapes), each element's diagnostics compared as a multiset with the statement's tables." + EXPL,
+            T_ASSUME + "'unknown type' errors are excluded on both sides (C05's business).",
+            "DESIGN.md section 4, C08"),
+    "C09": ("exhaustive enumeration of method sequences (length <= 4 quick, 5 thorough) over 3 names x {no code, 3 codes} with constants interleaved + random longer sequences; single-pass reference model from the statement",
+            "Every sequence in the bounded space is run and the diagnostics on method names and transact codes (kind, range, related range) are compared with a reference model of the first-occurrence bookkeeping." + EXPL,
+            T_ASSUME + "Overflowing codes are excluded.",
+            "DESIGN.md section 4, C09"),
+    "C10": ("exhaustive enumeration interface oneway x up to 2 (thorough 3) methods x method oneway x 17 return categories + random projects; reference propagation model",
+            "The finite product is enumerated completely; Method.oneway after validation, the redundant-keyword warnings and the return-type errors are compared with the reference." + EXPL,
+            T_ASSUME,
+            "DESIGN.md section 4, C10"),
+    "C11": ("generated projects x 8 fresh parsers with permuted insertion orders (one on another thread, validate twice); oracle: all results equal + ascending start offsets",
+            "Every generated project is validated by eight independent parsers (fresh hash seeds) with different insertion orders; any difference between two results, or a diagnostic list not ascending by position, is a violation. Inputs are biased to many diagnostics on one line, duplicate keys and ambiguous imports." + EXPL,
+            T_ASSUME + "Hash seeds can only be resampled, not chosen: a dependence that shows with probability p per run is missed with (1-p)^7.",
+            "DESIGN.md section 4, C11"),
+    "C12": ("model-based stateful testing: exhaustive operation sequences over a 21-op alphabet from the empty parser and from all 125 abstract states + random histories up to 40 ops; oracle: fresh parser built from the model map after every step",
+            "After every single operation of every history the long-lived parser's validate() is compared with a fresh parser holding the surviving (id, content) pairs; failed file loads must change nothing and report an error." + EXPL,
+            T_ASSUME + "Only the public API; no fault injection below std::fs.",
+            "DESIGN.md section 4, C12"),
+    "C13": ("metamorphic testing: generated project + one fact-preserving perturbation of the rest of the project; negative controls that must change the result",
+            "The observed file's tree and diagnostics must be identical before and after adding / removing / rewriting other files in ways that keep the imported keys' kinds; controls (kind change, removal of an imported file) must change the result whenever the reference predicts a change, so the check is not vacuous." + EXPL,
+            T_ASSUME + "Projects with a key registered under several kinds are excluded.",
+            "DESIGN.md section 4, C13"),
+    "C14": ("generated items with one injected garbage member (0-8 random tokens + terminator), filtered by the reference recogniser to the property's domain; oracle: siblings before/after unchanged, errors inside the member's extent",
+            "Tens of thousands of garbage members per run at every member position of interfaces, parcelables and enums; siblings must survive in order and every syntax error must lie inside the injected member." + EXPL,
+            T_ASSUME,
+            "DESIGN.md section 4, C14"),
+    "C15": ("validated trees of generated documents; reference traversal (independent walker) vs walk_symbols / filter_symbols / find_symbol for all k-th / kind / name predicates at 3 levels, walk_types / walk_methods / walk_args",
+            "For every tree the complete visiting sequence and the result of every predicate of the three families named in the property are compared with an independently written reference traversal." + EXPL,
+            T_ASSUME,
+            "DESIGN.md section 4, C15"),
+    "C16": ("generated documents x every (line, column) position x 3 filter levels; oracle: first symbol of the reference traversal whose name range contains the position",
+            "Every character position (and positions past line ends / past the last line) of every generated document is looked up at all three levels and compared by identity with the reference answer." + EXPL,
+            T_ASSUME,
+            "DESIGN.md section 4, C16"),
+    "C17": ("generated multi-file projects; oracle: qualified names computed from the model + reference resolution, compared with Symbol::get_qualified_name / get_name / Aidl::get_key",
+            "For every symbol of every file the names are compared with the statement's formats, and every cross-file reference's qualified name with that of the item it resolves to." + EXPL,
+            T_ASSUME,
+            "DESIGN.md section 4, C17"),
+    "C18": ("generated doc-comment models (paragraphs / lines / @tags, ASCII / accented / CJK / emoji) in five decoration styles x five placement situations on every documentable construct; oracle: normalised text computed from the model",
+            "Every documentable construct of every generated document gets a situation; the doc of every construct (including those that must have none) is compared with the expected string." + EXPL,
+            T_ASSUME + "Nothing is asserted outside the comment / whitespace domain stated in the property's quantifier.",
+            "DESIGN.md section 4, C18"),
+    "C19": ("round trip: ron::to_string / to_string_pretty -> ron::from_str on every parse-stage and validated tree of generated projects and documents; oracle: equality with the original",
+            "Thousands of trees per run with all optional fields present and absent are serialised and read back; any inequality or RON error is a violation." + EXPL,
+            T_ASSUME + "RON 0.7.1 is trusted as the self-describing format (serde_json is run alongside).",
+            "DESIGN.md section 4, C19"),
+    "C20": ("error points = every prefix of generated documents + EOF / one vocabulary token, and token-mutated documents; oracle: message items vs the expectation vector recorded by the verif-hooks recorder",
+            "Tens of thousands of error points per run; each message must name exactly the recorded expectation multiset. The known truncation (entry n-2 dropped, KF-C20-1) is counted and reported as KNOWN-FINDING; any other discrepancy is a violation." + EXPL,
+            T_ASSUME + "Needs the verif-hooks recorder; expectation sets of LR states no generated error point reaches are unseen (the evidence reports the distinct vectors reached).",
+            "DESIGN.md section 4, C20"),
 }
 
 PENDING_REASON = "check not built yet in this revision (planned: see DESIGN.md section 4); property-based testing applies"
